@@ -678,8 +678,8 @@ def shift_starts(tier, route=None):
         spans = [((2023, 12, 1), (2024, 3, 31) if route == 'override' else (2025, 3, 31))]
         tails = [1900, 1904, 1999, 2000, 2001, 2049, 2050, 2051, 2099, 2100, 2101, 2400, 9990]
     else:
-        spans = [((1896, 1, 1), (1905, 12, 31)), ((1996, 1, 1), (2005, 12, 31)), ((2019, 1, 1), (2030, 12, 31)),
-                 ((2046, 1, 1), (2056, 12, 31)), ((2096, 1, 1), (2105, 12, 31))]
+        spans = [((1898, 1, 1), (1904, 12, 31)), ((1998, 1, 1), (2004, 12, 31)), ((2020, 1, 1), (2028, 12, 31)),
+                 ((2048, 1, 1), (2053, 12, 31)), ((2098, 1, 1), (2104, 12, 31))]
         tails = [1, 4, 100, 400, 1600, 1700, 1800, 2200, 2300, 2400, 5000, 9990, 9994, 9999]
     for a, b in spans:
         out += [from_ordinal(o) for o in range(ordinal(*a), ordinal(*b) + 1)]
@@ -1405,7 +1405,7 @@ def run(tier='quick', seed=0):
         'tier_box': ('years {1900,1999,2000,2023,2024,100,2100} x months -14..26 x days -70..99' if q else
                      'years {1900,1999,2000,2023,2024,100,2100,1904,2050,2051,2096,2400,9998} x months -30..40 x days -400..400'),
         'tier_shift': ('every day 2023-12-01..2025-03-31 (formulas under overrides: ..2024-03-31) + days 1,15,27..31 of every month of 13 further years 1900..9990' if q else
-                       'every day of 1896-1905, 1996-2005, 2019-2030, 2046-2056, 2096-2105 + days 1,15,27..31 of every month of '
+                       'every day of 1898-1904, 1998-2004, 2020-2028, 2048-2053, 2098-2104 + days 1,15,27..31 of every month of '
                        'years 1,4,100,400,1600,1700,1800,2200,2300,2400,5000,9990,9994,9999'),
         'tier_dd0': '2023-07-01..2025-06-30 (abstract copy: every 2nd start day)' if q else '2023-01-01..2025-12-31',
         'tier_dd1': 'every 5th start day' if q else 'all pairs',
